@@ -63,6 +63,9 @@ def draw(case, path, rng):
         p["gamma"] = float(vmax * 2 * np.pi * rc / 0.72)  # peak swirl velocity ~ vmax
     else:
         p["amp"] = float(rng.uniform(0.5, 2.0))
+    # the simulator object is CONSTRUCTED with another viscosity (x3 or x0.3) and the public attribute is set to the wanted value before
+    # the run (a viscosity sweep on one live object): every step, like compute_stable_timestep, must use the live value
+    p["ctor_nu_factor"] = float(rng.choice([1.0, 3.0, 0.3]))
     return p
 
 
@@ -87,13 +90,16 @@ def simulate(p, n, dtype):
     # grids are NON-square / NON-cubic, (3n/4, n) and (n, 3n/4, n): the y extent is 3/4 of the x (and z) extent, so the simulator's
     # own coordinate field, on which the exact solution is evaluated, must get every axis extent from the right grid size
     shape = ((3 * n) // 4, n) if d == 2 else (n, (3 * n) // 4, n)
+    nu_ctor = nu * p.get("ctor_nu_factor", 1.0)
     if p["case"] == "lamb_oseen":
         # path A through the documented factory function, path B through the class
-        sim = sims.build(dict(kind="ns2d", shape=shape, x_range=1.0, nu=nu, dtype=dtype, threads=1, free_stream=True, time=t0, cfl=p["cfl"],
+        sim = sims.build(dict(kind="ns2d", shape=shape, x_range=1.0, nu=nu_ctor, dtype=dtype, threads=1, free_stream=True, time=t0, cfl=p["cfl"],
                               via_factory=(p["path"] == "A")))
     else:
-        sim = sims.build(dict(kind="passive", shape=shape, x_range=1.0, nu=nu, dtype=dtype, threads=1, time=t0, cfl=p["cfl"],
+        sim = sims.build(dict(kind="passive", shape=shape, x_range=1.0, nu=nu_ctor, dtype=dtype, threads=1, time=t0, cfl=p["cfl"],
                               field_type="vector" if p["case"].endswith("vector") else "scalar"))
+    if nu_ctor != nu:
+        sim.kinematic_viscosity = nu
     pos = np.asarray(sim.position_field, np.float64)
     dx = float(sim.dx)
 
@@ -220,6 +226,24 @@ def run_shard(sh, rec):
     else:
         rec.inconclusive_(f"no draw in the intended time-step regime for {key}")
         return
+    if p.get("ctor_nu_factor", 1.0) != 1.0:
+        rec.count("families_on_simulators_constructed_with_another_viscosity")
+    # one more run at an "awkward" resolution (prime-ish cell counts, doubled length not an FFT-friendly size): judged against the
+    # calibrated bound of the next SMALLER calibrated resolution (errors decrease with n on both paths)
+    n_awk = ((37, 53, 74, 97) if d == 2 else (17, 19, 23, 29))[(seed + sh["draw"] + CASES.index(case)) % 4]
+    n_cal = max(int(k) for k in cb["bound"] if int(k) <= n_awk)
+    r_awk = simulate(p, n_awk, dtype)
+    rec.count("simulations")
+    rec.count("simulations_at_awkward_resolution")
+    if r_awk["regime_ok"]:
+        b = cb["bound"][str(n_cal)]
+        rec.stat(f"err_over_bound_awkward_{path}", r_awk["err_max"] / b)
+        if not (r_awk["err_max"] <= b):
+            rec.violation(f"{case}:error>calibrated-bound:path{path}", f"awkward resolution n={n_awk} err={r_awk['err_max']:.3e} bound(n={n_cal})={b:.3e} nu={p['nu']} U={p['U']}", {"p": p, "n": n_awk})
+        if case == "lamb_oseen" and not (r_awk["verr_end"] <= cb["vbound"][str(n_cal)]):
+            rec.violation(f"{case}:velocity-error>calibrated-bound:path{path}", f"awkward resolution n={n_awk} verr={r_awk['verr_end']:.3e} bound(n={n_cal})={cb['vbound'][str(n_cal)]:.3e}", {"p": p, "n": n_awk})
+    else:
+        rec.count("awkward_resolution_runs_outside_intended_regime")
     errs = [r["err_end"] for r in res]
     pair, slope, overall = orders(ns, errs) if all(np.isfinite(errs)) and min(errs) > 0 else ([float("-inf")], float("-inf"), float("-inf"))
     rec.count("families_path_" + path)
